@@ -58,10 +58,10 @@ type c15FE struct {
 
 func init() {
 	register(&Prop{ID: "C15", Run: c15Run,
-		Rule: "operation types are enumerated by reflection from pipeline.OpSpec (recursively through pointed-to types); each is populated by kind (strings, *string, bool, []int, []string, maps, *ValOrRef / *AnyVal / ActionSpec / ChildActions decoded from YAML or built recursively) from a seed, cloned under a real ActionContext and compared field by field (nil/empty identified), bare and wrapped in OpSpec / ActionSpec / ChildActions; template cases put `{{ .x }}` into clone:\"template\" fields; configured-but-empty values (non-nil pointer to \"\" / false / 0 / empty slice, empty non-nil slices and maps) are populated per field, alone and next to all other fields; template text also goes into text fields that are NOT tagged (string, *string, []string elements, *[]string elements, *ValOrRef: the clone may hold them verbatim or rendered) and every templated value is cloned twice under different data with a deep snapshot of the original (slice elements included) compared before/after; exec cases run data-only specs (set, patch, template, log, abort, define+call, loop, forEach) as original and clone on equal data and as forEach bodies; feach cases run a forEach over 2-3 items whose body (log, set, template, patch, exec `true` with an argument list, in operations or in a steps child) uses `{{ .<variable> }}` and compare outcome, data and logs with a fresh copy of the body cloned+executed per item, and with a second run of the same forEach value. Non-trivial: at least one field populated. distinct = distinct canonical case JSON.",
+		Rule: "operation types are enumerated by reflection from pipeline.OpSpec (recursively through pointed-to types); each is populated by kind (strings, *string, bool, []int, []string, maps, *ValOrRef / *AnyVal / ActionSpec / ChildActions decoded from YAML or built recursively) from a seed, cloned under a real ActionContext and compared field by field (nil/empty identified), bare and wrapped in OpSpec / ActionSpec / ChildActions; template cases put `{{ .x }}` into clone:\"template\" fields; configured-but-empty values (non-nil pointer to \"\" / false / 0 / empty slice, empty non-nil slices and maps) are populated per field, alone and next to all other fields; value-or-reference values are populated in both kinds and in the odd forms too (an immediate value that also has Ref set, a reference that also has Val set, an empty reference); template text also goes into text fields that are NOT tagged (string, *string, []string elements, *[]string elements, *ValOrRef: the clone may hold them verbatim or rendered) and every templated value is cloned twice under different data with a deep snapshot of the original (slice elements included) compared before/after; exec cases run data-only specs (set, patch, template, log, abort, define+call, loop, forEach) as original and clone on equal data and as forEach bodies; vor cases take one value-or-reference — decoded scalar, decoded {ref: …}, composite literal with Ref AND Val, decoded reference with Val set; Ref / Val from {empty, path of a leaf, missing path, `{{ .x }}` with .x possibly empty} (small scope exhaustively, then random) — on its own ((*ValOrRef).CloneWith) and as every *ValOrRef field of every operation type found by reflection, bare / in OpSpec / in ActionSpec: the clone is compared field by field (the unexported kind flag included; reflect.DeepEqual with the original when template-free), resolved on data where the path named by Ref holds something else than Val, and executed (export: which files are written with what content, log lines; forEach over a query: log lines) against the original; feach cases run a forEach over 2-3 items whose body (log, set, template, patch, exec `true` with an argument list, in operations or in a steps child) uses `{{ .<variable> }}` and compare outcome, data and logs with a fresh copy of the body cloned+executed per item, and with a second run of the same forEach value. Non-trivial: at least one field populated. distinct = distinct canonical case JSON.",
 		Assumptions: []string{"text/template + sprig is an external library: the model renders only the micro-fragment `{{ .x }}`; template-free = no `{{` … `}}` pair in any string (possiblyTemplate is false)",
 			"helpers safeRenderStrPointer/safeRenderStrSlice/safeCopyIntSlice/safeCloneValOrRef are classified by name by the extractor; their behaviour is validated only by this harness",
-			"operations with OS effects (exec, templateFile, import, export, env, ext, html2dom) are cloned and compared but not executed — except exec of the program `true` (no output, no files) in feach cases"}})
+			"operations with OS effects (exec, templateFile, import, export, env, ext, html2dom) are cloned and compared but not executed — except exec of the program `true` (no output, no files) in feach cases and export in vor cases (into a scratch directory under .work, which is also the working directory while the operation runs)"}})
 	evals["C15"] = c15Eval
 	shrinkers["C15"] = shrinkJSON
 }
@@ -325,6 +325,29 @@ func c15Populate(v reflect.Value, r *rand.Rand, depth int, tplText string) {
 			texts = []string{"{a: 1, b: [x, {c: null}], d: {}}", "[1, [2, 3], {}]", "plain", "null"}
 		}
 		_ = yaml.Unmarshal([]byte(pick(r, texts)), p.Interface())
+		if vor, ok := p.Interface().(*pipeline.ValOrRef); ok {
+			// the forms a decoder alone does not produce: the OTHER exported text populated as well — an immediate
+			// value that also has Ref set (all that code outside the package can build with Ref), a reference
+			// that also has Val set — and a reference that is empty.  Whether the value is a reference was
+			// decided when it was decoded; cloning has to carry that over, whatever the texts hold.  (The draws
+			// do not depend on the text, so that the template / rendered builds agree.)
+			other := pick(r, c15Strings)
+			if tplText != "" {
+				other = tplText
+			}
+			switch r.Intn(6) {
+			case 0:
+				if vor.Ref == "" {
+					vor.Ref = other
+				} else {
+					vor.Val = other
+				}
+			case 1:
+				if vor.Ref != "" && tplText == "" {
+					vor.Ref = ""
+				}
+			}
+		}
 		v.Set(p)
 		return
 	}
@@ -579,6 +602,11 @@ func c15Run(c *Ctx) {
 		}
 		c.Do("clone", c15Clone{Op: n, Fields: fs, Seed: r.Int63n(1 << 30), Tpl: tpl, Empty: empty, X: pick(r, []string{"V", "a.b", "7", ""}), Wrap: pick(r, wraps)})
 	}
+	// value-or-reference fields in every form (see c15_vor.go)
+	for _, p := range c15VoRCases(r, c.N(400)) {
+		c.Tick()
+		c.Do("vor", p)
+	}
 	g := stdGen()
 	g.MaxDepth = 3
 	for i := 0; i < c.N(500); i++ {
@@ -752,6 +780,8 @@ func c15Eval(c *Ctx, kind string, raw []byte) {
 			panic(err)
 		}
 		c15EvalFE(c, p)
+	case "vor":
+		c15EvalVoR(c, raw)
 	}
 }
 
